@@ -232,6 +232,12 @@ def request(op):
     return req
 
 
+def deliver_request(a, op):
+    """The peer's request for `op` arrives as P-DATA (dimse.receive_primitive) - it is queued, not dispatched."""
+    req = request(op)
+    SA.inject_message(a, req, req._context_id)
+
+
 class OpResult:
     def __init__(self):
         self.marks = []  # len(a.sent) when step i was about to be yielded; last entry = generator finished
@@ -245,11 +251,13 @@ class OpResult:
         self.cancel_yielded = False
 
 
-def run_op(a, op, hook=None, via_queue=False, wire=False):
+def run_op(a, op, hook=None, via_queue=False, wire=False, inject=True):
     """Serve one operation on association `a`. Returns OpResult; a.sent keeps growing across operations.
 
     via_queue: deliver the request as the peer's P-DATA (dimse.receive_primitive -> msg_queue), call
-    hook("queued", None), then dispatch it the way Association._run_reactor does (get_msg + _serve_request)."""
+    hook("queued", None), then dispatch it the way Association._run_reactor does (get_msg + _serve_request).
+    inject=False (with via_queue): the request has already been delivered (a pipelining peer sent it while an earlier
+    operation was being served, see `deliver_request`); only the hook call and the dispatch happen here."""
     from pynetdicom import evt
 
     res = OpResult()
@@ -327,7 +335,8 @@ def run_op(a, op, hook=None, via_queue=False, wire=False):
     try:
         with SA.no_sleep():
             if via_queue:
-                SA.inject_message(a, req, req._context_id)
+                if inject:
+                    SA.inject_message(a, req, req._context_id)
                 if hook:
                     hook("queued", None)
                 cid, msg = a.dimse.get_msg(block=False)
